@@ -94,7 +94,12 @@ URL_IN_HTML_BINARY_RE = re.compile(URL_IN_HTML_BINARY, re.I)
 QUERY_VALUE_IN_URL_TEMPLATE = r"(?:^|[?&])(%s)=([^&]+)"
 QUERY_VALUE_TEMPLATE = r"%s=([^&]+)"
 
-DOMAIN_TEMPLATE = r"^(?:https?:)?(?://)?(?:\S+(?::\S*)?@)?%s(?:[:/#]|\s*$)"
+# NOTE: neither the userinfo nor the hostname labels can contain characters
+# delimiting the other parts of the url, and the hostname can be directly
+# followed by a query
+HOSTNAME_LABEL = r"[^\s.:/?#@]+"
+SUBDOMAINS = r"(?:%s\.)*" % HOSTNAME_LABEL
+DOMAIN_TEMPLATE = r"^(?:https?:)?(?://)?(?:[^\s/?#@]*@)?%s(?:[:/?#]|\s*$)"
 
 SCRIPT_TAG = r"<script\b[^<]*(?:(?!<\/script>)<[^<]*)*<\/script>"
 SCRIPT_TAG_BINARY = SCRIPT_TAG.encode()
